@@ -339,7 +339,14 @@ func CompileList(list List) (f Object) {
 		switch ta := list[0].(type) {
 		case Symbol:
 			name := strings.ToLower(string(ta))
-			if fi := CurrentPackage.funcs[name]; fi != nil {
+			fi := CurrentPackage.funcs[name]
+			if fi == nil {
+				// A package qualified name such as pkg:fun or pkg::fun.
+				if i := strings.IndexByte(name, ':'); 0 < i && FindPackage(name[:i]) != nil {
+					fi = FindFunc(name)
+				}
+			}
+			if fi != nil {
 				f = fi.Create(list[1:])
 			} else {
 				lc := Lambda{
